@@ -135,9 +135,9 @@ class CachedTimeline(Timeline[IvlOut]):
             clipped_start = ivl.start
             clipped_end = ivl.end
 
-            if ivl.start is not None and ivl.start < gap_start:
+            if ivl.start is None or ivl.start < gap_start:
                 clipped_start = gap_start
-            if ivl.end is not None and ivl.end > gap_end:
+            if ivl.end is None or ivl.end > gap_end:
                 clipped_end = gap_end
 
             # Only add if there's content after clipping
